@@ -315,6 +315,8 @@ Proof.
   - eapply chain_retention; [exact HC|exact Hok|exact H].
   - eapply chain_import; eassumption.
   - inversion H; subst. exact HC.
+  - (* OWriteJ *) unfold op_write_page_j in H. destruct (writeable s); cbn [negb] in H; [|discriminate].
+    inversion H; subst s'. destruct HC as [A Bq]. split; assumption.
 Qed.
 
 Lemma chain_init lock : Chain (init lock).
